@@ -777,6 +777,15 @@ theorem caddyfile_bad_weights_rejected (dur : Bytes → Option Int) (l fuel : Na
     | nil => rfl
     | cons a rest => simp [h]
 
+/-- the argument loops of the dispenser model (`RemainingArgs`, the first loop of `NextSegment`) never
+    run out of the fuel they are given ("number of tokens + 2"): more fuel gives the same result, from
+    any cursor position. (The block loops and the nesting of fallbacks report exhausted fuel as the
+    explicit outcome `fuel`; no case of the differential stream produces it.) -/
+theorem caddyfile_argument_loops_have_fuel_to_spare (d : Disp) (more : Nat) :
+    remainingArgs (d.toks.length + 2) d = remainingArgs (d.toks.length + 2 + more) d ∧
+    segArgs (d.toks.length + 2) d = segArgs (d.toks.length + 2 + more) d :=
+  ⟨remainingArgs_fuel _ _ d (by omega) (by omega), segArgs_fuel _ _ d (by omega) (by omega)⟩
+
 /-! ### the `reverse_proxy` directive: `lb_policy` once, `lb_retries`, the passive limits -/
 
 /-- a second `lb_policy` in the same `reverse_proxy` block is an error ("already specified") — the
